@@ -239,7 +239,7 @@ def h_export(H, net, training):
     # [C18] the whole-model observers of the wrapper, called after export() and in between each other: summary() twice, str(), get_total_icv()
     flags_o = [m.training for m in model.modules()]     # (exported.eval() above is the harness's own action on the layers export() shares)
     s1 = model.summary()
-    str(model)                                   # (the text itself holds floats: not compared)
+    model.__str__()                                   # (the text itself holds floats: not compared)
     model.get_total_icv()
     s2 = model.summary()
     H.ensure('[C18] observers:summary-lists-exactly-the-choice-blocks', sorted(s1.keys()) == sorted(b + '.sn_combiner' for b in blocks))
